@@ -226,6 +226,7 @@ FORCED = [
     ("ForcedInternalSameMember", DERIVE + "\n#[serde(tag = \"t\", rename_all = \"snake_case\")]\npub enum ForcedInternalSameMember {\n    A { value: u8 },\n    B { value: Option<u8> },\n    CUnit,\n}\n", "enum_internal"),
     ("ForcedDocRecursive", "/// A documented, self-referential type (schemars records the comment as `description` on the root).\n" + DERIVE + "\npub struct ForcedDocRecursive {\n    /// the children\n    pub children: Vec<ForcedDocRecursive>,\n    /// a name\n    #[serde(default)]\n    pub name: String,\n    pub parent: Option<Box<ForcedDocRecursive>>,\n}\n", "struct"),
     ("ForcedDocEnum", "/// Documented enum.\n" + DERIVE + "\n#[serde(tag = \"k\")]\npub enum ForcedDocEnum {\n    /// leaf\n    Leaf { /// payload\n v: u8 },\n    /// node\n    Node { kids: Vec<ForcedDocEnum> },\n}\n", "enum_internal"),
+    ("ForcedUntaggedOptionNumeric", DERIVE + "\n#[serde(untagged)]\npub enum ForcedUntaggedOptionNumeric {\n    Count(Option<u32>),\n    Level(f64),\n    Name(String),\n}\n", "enum_untagged"),
     ("ForcedFloatMaps", DERIVE + "\n#[serde(rename_all = \"SCREAMING-KEBAB-CASE\")]\npub struct ForcedFloatMaps {\n    pub float_map: ::std::collections::HashMap<String, f32>,\n    pub set_of: ::std::collections::BTreeSet<i64>,\n    #[serde(rename = \"type\")]\n    pub type_: u64,\n}\n", "struct"),
 ]
 
